@@ -14,6 +14,9 @@ SPEC = {
         {"name": "seed-while-writing-race", "pkg": O4, "kind": "rapid", "run": "^TestVerifC09SeedWhileWriting$", "common": {"shrinktime": "5s"},
          "quick": {"checks": 60, "shards": 2, "timeout": 300, "race": True},
          "thorough": {"checks": 300, "shards": 6, "timeout": 3000, "race": True}},
+        {"name": "two-bridges", "pkg": O4, "kind": "rapid", "run": "^TestVerifC09TwoBridges$", "common": {"shrinktime": "5s"},
+         "quick": {"checks": 80, "shards": 2, "timeout": 300},
+         "thorough": {"checks": 1500, "shards": 8, "timeout": 3000}},
         {"name": "paranoid-termination", "pkg": O4, "kind": "plain", "run": "^TestVerifC09ParanoidTermination$",
          "quick": {"shards": 8, "timeout": 300}, "thorough": {"shards": 16, "timeout": 1500}},
         {"name": "paranoid-exhaustive", "pkg": O4, "kind": "plain", "run": "^TestVerifC09ParanoidExhaustive$",
